@@ -131,3 +131,19 @@ def kcv_colliding_pair(rng, size, nbytes=2):
             return seen[kcv], k
         seen[kcv] = k
     return None
+
+
+SPECIAL_BLOCKS = [bytes(8), b"\xff" * 8, bytes.fromhex("0123456789ABCDEF"), bytes.fromhex("FEDCBA9876543210")] + [bytes([0x11 * v]) * 8 for v in (1, 5, 9, 10, 11, 12, 13, 14)]
+
+
+def chosen_ciphertext(rng, keysize, target, legal, tries=40000):
+    """a key of `keysize` bytes under which the 8-byte TDES ciphertext block `target` decrypts to a plaintext that
+    `legal(nibbles)` turns into arguments (else None): special cipher blocks - all zero, one repeated hex digit,
+    0123456789ABCDEF - are as legal as any other, but no random input ever produces them.  -> (key, arguments) or None"""
+    from harness import oracles as o
+    for _ in range(tries):
+        k = rng.randbytes(keysize)
+        args = legal(o.nibbles(o.D("des", k, target)))
+        if args is not None:
+            return k, args
+    return None
